@@ -292,4 +292,29 @@ example : enc (exVal (.int 0)) ≠ enc (exVal .none) := by
   simp [exVal] at this
 end Hashed
 
+/-! ## where the readable form ends and the hashed form begins does not matter -/
+section Threshold
+
+/-- **Any switch point.** `_unique_name` names a parameter value by its readable text when that is short, by a digest of its JSON tree
+    otherwise. Given that each form tells values apart (`readable_injective`; `hashed_encoding_injective` + the digest hypothesis) and
+    that no readable text is ever a digest (a readable name contains `=`; a digest is 32 hexadecimal digits), the name tells values
+    apart **whatever decides** which form a value gets — a length limit of 128, of 96, a different limit per generator. -/
+theorem mixed_naming_injective {V N : Type} (readable hashed : V → N) (useHash : V → Bool)
+    (hr : ∀ a b, readable a = readable b → a = b) (hh : ∀ a b, hashed a = hashed b → a = b)
+    (hdisj : ∀ a b, readable a ≠ hashed b) (a b : V)
+    (h : (if useHash a then hashed a else readable a) = (if useHash b then hashed b else readable b)) : a = b := by
+  cases ha : useHash a <;> cases hb : useHash b <;> simp only [ha, hb, if_true, if_false, Bool.false_eq_true] at h
+  · exact hr a b h
+  · exact absurd h (hdisj a b)
+  · exact absurd h.symm (hdisj b a)
+  · exact hh a b h
+
+/-- Non-vacuity: two forms over the naturals with disjoint ranges (even / odd), switched at two different points. -/
+example : (∀ a b : Nat, (if (fun v => decide (v < 7)) a then 2 * a + 1 else 2 * a) = (if (fun v => decide (v < 7)) b then 2 * b + 1 else 2 * b) → a = b) ∧
+          (∀ a b : Nat, (if (fun v => decide (v < 3)) a then 2 * a + 1 else 2 * a) = (if (fun v => decide (v < 3)) b then 2 * b + 1 else 2 * b) → a = b) :=
+  ⟨fun a b h => mixed_naming_injective (fun v => 2 * v) (fun v => 2 * v + 1) (fun v => decide (v < 7)) (fun _ _ h => by omega) (fun _ _ h => by omega) (fun _ _ => by omega) a b h,
+   fun a b h => mixed_naming_injective (fun v => 2 * v) (fun v => 2 * v + 1) (fun v => decide (v < 3)) (fun _ _ h => by omega) (fun _ _ h => by omega) (fun _ _ => by omega) a b h⟩
+
+end Threshold
+
 end Hdl21.Props.C09
